@@ -10,12 +10,12 @@ Status (see the report):
     `bytes.TrimSpace` it rests on (sublist, idempotent, no trailing CR) are
     proved for the model of Go's algorithm over all byte strings, invalid
     UTF-8 included (`C15_trimspace_facts`);
-  * rules in force: proved for every history of refreshes
+  * rules in force: proved for every history of refreshes AND set_url requests
     (`C15_insync_invariant`, `C15_failed_refresh_keeps_rules_in_force`) for the
-    code as repaired by commit f646577.  Before that commit the code violated
-    the property (late activation after a total failure of the other array);
-    the witness found by this check is kept in corpus/C15/refresh.txt as a
-    regression case and as the last `example` below.
+    code as repaired by commits f646577 (rebuild although the other array failed
+    completely) and c5ab9db (rebuild when URL / enabled flag changed although the
+    download brought nothing new).  Both defects were found by this check; the
+    witnesses are kept in corpus/C15/refresh.txt as regression cases.
 -/
 import AGH.Spec.RuleList
 import AGH.Lemmas.RuleListRefresh
@@ -202,21 +202,25 @@ theorem C15_metadata_describes_file (flt : Flt) (fs : List Fetch) (h : Consisten
 /-! ### Rules in force -/
 
 /-- The engine's view of every list stays equal to its file (`none` for a
-disabled list) across every history of `tryRefreshFilters` calls with
-arbitrary selections, due flags and download outcomes. -/
-theorem C15_insync_invariant (ls : List LState) (h : List (Req × List (Bool × Fetch)))
+disabled list) across every history of `tryRefreshFilters` calls and set_url
+requests with arbitrary selections, due flags and download outcomes (code as
+repaired by f646577 and c5ab9db). -/
+theorem C15_insync_invariant (ls : List LState) (h : List HOp)
     (h0 : ∀ l ∈ ls, InSync l) : ∀ l ∈ runHist h ls, InSync l := by
   induction h generalizing ls with
   | nil => exact h0
   | cons c h ih =>
     simp only [runHist, List.foldl_cons]
-    exact ih _ (refreshStep_insync c.1 ls c.2 h0)
+    apply ih
+    cases c with
+    | refresh rq ins => exact refreshStep_insync rq ls ins h0
+    | setURL i rq f => exact setURLStep_insync ls i rq f h0
 
-/-- After ANY history of refreshes (from a state in which the engine agrees
-with the files, e.g. start-up), a call that fails for a list — or does not
+/-- After ANY history of refreshes and set_url requests (from a state in which
+the engine agrees with the files, e.g. start-up), a refresh that fails for a list — or does not
 attempt it — leaves its file, count, checksum AND its rules in force exactly
 as they were, whatever happens to the other lists in the same call. -/
-theorem C15_failed_refresh_keeps_rules_in_force (ls0 : List LState) (h : List (Req × List (Bool × Fetch)))
+theorem C15_failed_refresh_keeps_rules_in_force (ls0 : List LState) (h : List HOp)
     (h0 : ∀ l ∈ ls0, InSync l) (rq : Req) (ins : List (Bool × Fetch))
     (i : Nat) (l : LState) (due : Bool) (f : Fetch) (hl : (runHist h ls0)[i]? = some l)
     (hi : ins[i]? = some (due, f)) (hf : attempted rq l due = false ∨ fetchFails f = true) :
@@ -284,7 +288,7 @@ theorem C15_parse_meets_spec (src : Bytes) (complete : Bool) :
 /-- **The model satisfies the refresh monitor in every reachable state, for
 every list of every call**: not attempted, failed, succeeded with unchanged
 checksum, succeeded and rewritten.  `rew` is the model's "file was replaced". -/
-theorem C15_model_meets_spec (ls0 : List LState) (h : List (Req × List (Bool × Fetch)))
+theorem C15_model_meets_spec (ls0 : List LState) (h : List HOp)
     (h0 : ∀ l ∈ ls0, InSync l) (rq : Req) (ins : List (Bool × Fetch))
     (i : Nat) (l l' : LState) (due : Bool) (f : Fetch) (hl : (runHist h ls0)[i]? = some l)
     (hi : ins[i]? = some (due, f)) (hl' : (refreshStep rq (runHist h ls0) ins)[i]? = some l') :
@@ -423,60 +427,51 @@ theorem C15_observation_O1_rewrite_after_failed_seturl (flt : Flt) (rq : SetReq)
   refine ⟨rfl, by simp [hu], ?_⟩
   simp [refreshOne, hu, hfile]
 
-/-- An accepted set_url that downloads stores exactly what a refresh would:
-the normal form of the complete body, its line count and checksum. -/
+/-- Whenever a set_url request replaces the list's file, it stores exactly
+what a refresh would: the normal form of the complete body, its line count and
+checksum. -/
 theorem C15_seturl_success_stores_normal_form (flt : Flt) (rq : SetReq) (f : Fetch)
-    (h : (setProps flt rq f).res = .ok true) (hen : rq.enabled = true) :
+    (h : (setProps flt rq f).flt.file ≠ flt.file) :
     ∃ data, f = .body data true ∧ (parse data true).err = none ∧
+      (setProps flt rq f).res = .ok true ∧
       (setProps flt rq f).flt.file = some (normalForm data) ∧
       (setProps flt rq f).flt.count = (specLines data).length ∧
       (setProps flt rq f).flt.checksum = crcLines 0 (specLines data) := by
-  rcases setProps_cases flt rq f with h1 | ⟨he, _⟩ | ⟨_, _, h3⟩ | ⟨_, h4⟩
-  · rw [h1] at h; cases h
-  · rw [hen] at he; cases he
-  · rw [h3] at h; cases h
+  rcases setProps_cases flt rq f with h1 | ⟨_, r, h2⟩ | ⟨_, _, h3⟩ | ⟨_, h4⟩
+  · rw [h1] at h; exact absurd rfl h
+  · rw [h2] at h; exact absurd rfl h
+  · rw [h3] at h; exact absurd rfl h
   · rw [h4] at h ⊢
     rcases setDownload_cases flt _ rq.changed f with ⟨c, k, out, hu, hs⟩ | ⟨_, _, hs⟩ | ⟨_, _, hs⟩
     · obtain ⟨data, rfl, hok, _, rfl, rfl, rfl⟩ := updateIntl_some hu
       obtain ⟨h1, h2, h3, _, _⟩ := parse_normal data hok
       rw [hs]
-      exact ⟨data, rfl, hok, by simp [h1], h2, h3⟩
-    · rw [hs] at h; cases h
-    · rw [hs] at h; cases h
+      exact ⟨data, rfl, hok, rfl, by simp [h1], h2, h3⟩
+    · rw [hs] at h; exact absurd rfl h
+    · rw [hs] at h; exact absurd rfl h
 
-/-- Observation O2: a set_url to a NEW URL whose list has no rules (checksum
-0, e.g. an empty body) is accepted, the list now carries the new URL with
-count 0 — and the OLD list's file stays on disk (and in force: no rebuild is
-requested). -/
-theorem C15_observation_O2_empty_list_keeps_old_file (flt : Flt) (en0 : Bool) :
-    setProps ⟨en0, flt.count, flt.checksum, flt.file⟩ ⟨true, false, true⟩ (.body [] true) =
-      ⟨⟨true, 0, 0, flt.file⟩, true, .ok false⟩ := by
-  cases en0 <;> simp [setProps, setDownload, updateIntl, fetchFails, parse, scanLines, runLines, PState.init]
-
-/-- DEFECT of the unchanged code (reproduced on the real handlers, witness in
-corpus/C15/refresh.txt): `filterSetProperties` overwrites `shouldRestart`
-with the result of `update`.  Re-enabling a list whose server now returns an
-empty list (checksum 0 = the zeroed checksum of a disabled list) is accepted
-WITHOUT an engine rebuild although the enabled flag changed: the list is
-enabled, its old file is on disk, the engine does not use it.  A later refresh
-that FAILS for this list but updates another one rebuilds the engine and
-brings the old rules into force — rules in force change in a failed refresh.
-So `C15_failed_refresh_keeps_rules_in_force` holds for histories of refreshes
-only, not for histories that contain such a set_url. -/
-theorem C15_counterexample_reenable_without_rebuild :
-    let rule0 : Bytes := [124, 124, 97, 10]
-    let rule1 : Bytes := [124, 124, 98, 10]
-    let l : LState := ⟨⟨true, 0, 0, none⟩, false, none⟩
-    let s1 := refreshStep ⟨true, false, true⟩ [l, l] [(true, .body rule0 true), (true, .fail)]
-    let s2 := (setURLStep s1 0 ⟨false, false, false⟩ (.body [] true)).1      -- disable list 0
-    let s3 := (setURLStep s2 0 ⟨false, false, true⟩ (.body [] true)).1       -- enable it: empty list served
-    let s4 := refreshStep ⟨true, false, true⟩ s3 [(true, .fail), (true, .body rule1 true)]
-    -- enabled, file still there, but not in force, and set_url asked for no rebuild
-    (s3[0]?.map (fun x => (x.flt.enabled, x.flt.file, x.inForce)) = some (true, some rule0, none) ∧
-     (setURLStep s2 0 ⟨false, false, true⟩ (.body [] true)).2 = .ok false) ∧
-    -- the refresh fails for list 0, its file is untouched, its rules come into force
-    s4[0]?.map (fun x => (x.flt.file, x.inForce)) = some (some rule0, some rule0) := by
-  decide +kernel
+/-- Observation O2 (outside C15's refresh wording; code as repaired by
+c5ab9db): a set_url to a NEW URL whose list has no rules (checksum 0, e.g. an
+empty body) is accepted; the list now carries the new URL with count 0 and
+checksum 0, nothing is stored, the engine IS rebuilt — from the stored file of
+that list id, which is still the OLD URL's content: the old URL's rules stay
+on disk and in force under the new URL. -/
+theorem C15_observation_O2_empty_list_keeps_old_file (ls : List LState) (i : Nat) (l : LState)
+    (old : Bytes) (hl : ls[i]? = some l) (hf : l.flt.file = some old) :
+    (setProps l.flt ⟨true, false, true⟩ (.body [] true)) = ⟨⟨true, 0, 0, some old⟩, true, .ok true⟩ ∧
+    ((setURLStep ls i ⟨true, false, true⟩ (.body [] true)).1[i]?).map (fun x => (x.flt.file, x.inForce)) =
+      some (some old, some old) := by
+  have hsp : setProps l.flt ⟨true, false, true⟩ (.body [] true) = ⟨⟨true, 0, 0, some old⟩, true, .ok true⟩ := by
+    obtain ⟨⟨fe, cnt, ck, file⟩, al, inf⟩ := l
+    simp only at hf
+    subst hf
+    cases fe <;> simp [setProps, setDownload, updateIntl, fetchFails, parse, scanLines, runLines, PState.init]
+  refine ⟨hsp, ?_⟩
+  unfold setURLStep
+  rw [hl]
+  simp only [hsp]
+  have hi : i < ls.length := (List.getElem?_eq_some_iff.mp hl).1
+  simp [List.getElem?_map, List.getElem?_set, hi]
 
 /-- Over ANY history of refreshes and set_url requests on a list: there is no
 file and the metadata are zero, or the file is exactly the stored form of one
